@@ -18,6 +18,15 @@ Theorem C02_expression_in_grammar :
     exists ts, ptoks s = ts ++ ptoks s' /\ g 5 ts e.
 Proof. exact parse_expression_sound. Qed.
 
+(** The same for whole programs: whatever [parse] accepts is a program of the declarative grammar
+    ([g_program]: blocks of statements, each of the 18+ statement forms with its optional words, a
+    statement ended by an optional , or . and a line break, a blank line closing a block, `else`
+    attached to the open `if`, function bodies) over exactly the comment-free token list of the source. *)
+Theorem C02_program_in_grammar :
+  forall prof src p, parse prof src = ParseOk p ->
+    exists pts, lex prof src = Ok pts /\ g_program (map pt_tok (drop_comments pts)) p.
+Proof. exact parse_sound. Qed.
+
 (** ... and the grammar's trees obey the precedence ladder
     logical(5) < comparison(4) < term(3) < factor(2) < unary(1): the left operand of an operator binds
     at least as tightly as the operator (chains nest to the left: left associativity), every right
@@ -60,6 +69,7 @@ Example C02_example :
 Proof. vm_compute. repeat split; try exact I; repeat constructor. Qed.
 
 Print Assumptions C02_expression_in_grammar.
+Print Assumptions C02_program_in_grammar.
 Print Assumptions C02_grammar_levels.
 Print Assumptions C02_keyword_alias_any_case.
 Print Assumptions C02_number_literal_value.
